@@ -1,4 +1,11 @@
-"""C10 — slot k of a multi-level request is the solution at node levels[k]."""
+"""C10 — slot k of a multi-level request is the solution at node levels[k].
+
+Tie (B) of the level recording: the WHOLE body of ivp_solver (layer loop, recording loops `for lvl ...: if levels[lvl] == i`,
+final recording) and the mean-mode block of steady_state_transport_solver are translated from the current source by
+harness/py2coq_kernel.py and Bridge/KernelBridge.v re-proves gen_ivp_solver = Solver.ivp, gen_mean_mode = Solver.mean_loop
+for ALL inputs, plus the slot statements on the translated code (bridge_ivp_solver_slots, bridge_mean_mode_slots)."""
+import os
+
 import numpy as np
 
 import core
@@ -6,7 +13,7 @@ import solvercorr as sc
 import solverslices
 from props.c04 import TRUSTED  # same model, same tie
 
-THEOREMS = ["C10_slice_is_level", "C10_record"]
+THEOREMS = ["C10_slice_is_level", "C10_record", "C10_recording_loop_is_record", "C10_layer_loop_is_ivp_loop", "C10_mean_loop_is_mean_loop"]
 ASSUMPTIONS = ["levels are valid node indices 0..nz-1 (Python's negative indices are outside the property's quantifier)"]
 
 
@@ -37,7 +44,11 @@ def gen(ctx):
 
 def check(ctx):
     core.check_properties_file(ctx, "Properties/C10.v", THEOREMS, core.AX_NONE)
-    solverslices.run(ctx)
+    solverslices.run_kernel(ctx)   # whole-function tie of the recording loops (GenKernel.v, Bridge/KernelBridge.v)
+    solverslices.run(ctx)          # skeleton, expression slices, plumbing slices
+    if os.path.exists(os.path.join(ctx.build, "GenKernel.vo")):
+        import kernelcorr
+        kernelcorr.run(ctx)        # the translated kernel on doubles vs ivp_solver called directly / the mean mode
     cases, kinds = gen(ctx)
     recs = sc.correspond(ctx, cases, "c10_")
     sc.summarize(ctx, cases, recs,
